@@ -19,9 +19,11 @@ from engine import roles as _roles
 from . import shape as S
 
 #            name: bases
-LATTICE = [('A', []), ('B', ['A']), ('C', ['B']), ('M', []), ('D', ['B', 'M'])]
+# D is a diamond over A (through B and E) with a mix-in: the order of its supertypes is the C3 linearisation D, B, E, A, M - not a
+# depth-first walk of __bases__
+LATTICE = [('A', []), ('B', ['A']), ('C', ['B']), ('M', []), ('E', ['A']), ('D', ['B', 'E', 'M'])]
 # B and D are nested classes: __qualname__ differs from __name__
-QUALNAME = {'A': 'A', 'B': 'Outer.B', 'C': 'C', 'M': 'M', 'D': 'Outer.D'}
+QUALNAME = {'A': 'A', 'B': 'Outer.B', 'C': 'C', 'M': 'M', 'D': 'Outer.D', 'E': 'E'}
 KEY = {c: 'lattice.' + q for c, q in QUALNAME.items()}
 
 
@@ -93,7 +95,8 @@ class World:
         for name, bases in LATTICE:
             c = self.classes[name]
             c.attrs.update({'__module__': Const('lattice'), '__qualname__': Const(QUALNAME[name]), '__name__': Const(name),
-                            '__mro__': TupleV([self.classes[x] for x in mros[name]] + [self.obj])})
+                            '__mro__': TupleV([self.classes[x] for x in mros[name]] + [self.obj]),
+                            '__bases__': TupleV([self.classes[x] for x in bases] or [self.obj])})
         self.mros = mros
         self.base = self.it.global_name(self.m, _roles.name(repo, 'base_dispatch'))
         # every module-level mutable container of the module is registry state (restored between histories); the deferred store is
@@ -290,7 +293,7 @@ class World:
 
 
 # ---------------------------------------------------------------------------------------------------- histories
-ALL = ['A', 'B', 'C', 'M', 'D']
+ALL = ['A', 'B', 'C', 'M', 'D', 'E']
 FLAGS = [dict(check_superclasses=cs, check_deferred=cd, register_deferred=rd) for cs in (False, True) for cd in (False, True) for rd in (False, True)]
 
 
@@ -330,7 +333,7 @@ def _fl(flags):
 
 
 def gen_histories(tier, seed):
-    regs = [('RC', c) for c in ('A', 'B', 'M')] + [('RN', c) for c in ('A', 'B', 'M', 'D')] + \
+    regs = [('RC', c) for c in ('A', 'B', 'M')] + [('RN', c) for c in ('A', 'B', 'M', 'D', 'E')] + \
         [('RP', frozenset({'C', 'D'})), ('RP', frozenset(ALL)), ('RPS',)]
     mids = [('P', 'C'), ('P', 'D'), ('P', 'M'), ('Q', 'D', FLAGS[7]), ('Q', 'C', FLAGS[6]), ('Q', 'D', FLAGS[3]), ('Q', 'B', FLAGS[2])]
     out = [[]]
